@@ -12,8 +12,19 @@ def sig_fields(ev):
 
 
 def run(tier, seed, work, replay):
-    res, evs = certpolicy.run_policy("C03", tier, seed, work, sig_fields)
+    tz = certpolicy.tzfile_with_offset_change_ahead(work.path("zone-offset-change-ahead"))
+    res, evs = certpolicy.run_policy("C03", tier, seed, work, sig_fields,
+                                     second_pass=("zone", {"TZ": tz}, {"zone": "offset-change-ahead"},
+                                                  lambda c: c["dur"]["text"] in ("absent", "24h", "100h", "1h") or not c["dur"]["given"]))
     res.cov["rule"] = ("rows of the C03 table enumerated by TLC: duration text x credential kind/age x issuing path; "
                        "non-trivial = all (each row reaches the lifetime computation or its refusal)")
     res.cov["exhaustive"] = True
+    up = [e for e in evs if e["case"]["cred"] == "cookie_upgraded"]
+    res.cov["upgraded_session_rows"] = len(up)
+    res.cov["upgraded_session_rows_issued"] = sum(1 for e in up if e["out"]["issued"])
+    failed = [e["case"].get("note") for e in up if e["case"].get("note")]
+    if not up or failed or not res.cov["upgraded_session_rows_issued"]:
+        import engine as E
+        if not res.violations:
+            raise E.Inconclusive("upgraded-session rows: dead driver (%d rows, notes %s)" % (len(up), sorted(set(failed))[:3]))
     return res.finish()
